@@ -1665,7 +1665,7 @@ def replay_value_eq(a):
     data = ('{"a": {"Key": "env", "Value": "prod"}, "b": {"Value": "prod", "Key": "env"}, "same": {"Key": "env", "Value": "prod"},\n'
             ' "diff": {"Value": "dev", "Key": "env"}, "less": {"Key": "env"}, "la": [1, 2], "lb": [1, 2], "lr": [2, 1], "t": true, "t2": true, "f": false,\n'
             ' "i": 5, "i2": 5, "j": 6, "s": "x", "s2": "x", "n": null, "n2": null, "lm": [{"p": 1, "q": 2}], "lmr": [{"q": 2, "p": 1}],\n'
-            ' "fl": 1.5, "fl2": 1.5}\n')
+            ' "fl": 1.5, "fl2": 1.5, "fa": 0.30000000000000004, "fb": 0.3, "tiny": 1e-20, "tiny2": 2e-20}\n')
     cases = [("a == same", "PASS"), ("a == b", "PASS"), ("b == a", "PASS"), ("a != b", "FAIL"), ("diff == a", "FAIL"), ("a == less", "FAIL"), ("less == a", "FAIL"),
              ("a in [{ \"Key\": \"env\", \"Value\": \"prod\" }]", "PASS"), ("b in [{ \"Key\": \"env\", \"Value\": \"prod\" }]", "PASS"),
              ("b not in [{ \"Key\": \"env\", \"Value\": \"prod\" }]", "FAIL"), ("diff in [{ \"Key\": \"env\", \"Value\": \"prod\" }]", "FAIL"),
@@ -1673,7 +1673,10 @@ def replay_value_eq(a):
              ("la == lb", "PASS"), ("la == lr", "FAIL"), ("la != lr", "PASS"), ("lm == lmr", "PASS"), ("lm != lmr", "FAIL"),
              ("t == t2", "PASS"), ("t == f", "FAIL"), ("t != f", "PASS"), ("i == i2", "PASS"), ("i == j", "FAIL"), ("i != j", "PASS"),
              ("s == s2", "PASS"), ("n == n2", "PASS"), ("fl == fl2", "PASS"), ("i == s", "FAIL"), ("a == la", "FAIL"),
-             ("i in [4, 5]", "PASS"), ("j in [4, 5]", "FAIL"), ("i in r[1, 10]", "PASS"), ("i in r(5, 10]", "FAIL"), ("t in [true]", "PASS"), ("f in [true]", "FAIL")]
+             ("i in [4, 5]", "PASS"), ("j in [4, 5]", "FAIL"),
+             # floats: the == behind in-lists / query == query is the == of the comparison kernel (no tolerance)
+             ("fa in [0.3]", "FAIL"), ("fa in [0.30000000000000004]", "PASS"), ("fa == fb", "FAIL"), ("fa != fb", "PASS"), ("fb in [0.3]", "PASS"),
+             ("tiny in [2e-20]", "FAIL"), ("tiny == tiny2", "FAIL"), ("i in r[1, 10]", "PASS"), ("i in r(5, 10]", "FAIL"), ("t in [true]", "PASS"), ("f in [true]", "FAIL")]
     return a.replay_cases(exe, data, cases)
 
 
@@ -1955,6 +1958,54 @@ def replay_substring_offsets(a):
     # out-of-range offsets: the string is skipped, the variable holds nothing: `!empty` FAILs, `empty` PASSes
     for v in ("w1", "w2", "w3", "w4", "w5", "w6", "w7"):
         cases += [(f"%{v} empty", "PASS"), (f"%{v} !empty", "FAIL")]
+    return a.replay_cases(exe, data, cases, prefix=prefix)
+
+
+def case_converters(a):
+    """C18 (`to_upper / to_lower return ... exactly the documented result`: the string with ALL its characters converted): the string
+    pushed for a String element is the result of std's Unicode `str::to_lowercase` / `str::to_uppercase` of that element's text - not an
+    ASCII-only conversion, not a conversion of something else"""
+    for fname, std_fn, wrong in (("to_lower", "to_lowercase", "to_uppercase"), ("to_upper", "to_uppercase", "to_lowercase")):
+        ex = a.exec(r"(?:(?:rules::functions::)?strings::)?" + fname,
+                    {"next": mirexec.m_iter_next, "iter": mirexec.m_new_iter, "into_iter": mirexec.m_new_iter, "with_capacity": lambda ex, av: ex.opq(),
+                     std_fn: lambda ex, av: ex.opq(), "clone": mirexec.m_identity},
+                    log=("push", "make_ascii_lowercase", "make_ascii_uppercase", "to_ascii_lowercase", "to_ascii_uppercase", wrong, "map", "collect", "chars"),
+                    unroll=1, max_paths=4000, first_arg_re=r"_1: &\[(?:rules::)?QueryResult\]", deepen=False)
+        a.fns.append(f"rules::functions::strings::{fname} (the conversion itself)")
+        bad, nconv = [], 0
+        for p in ex.paths:
+            if p.outcome != "return":
+                continue
+            convs = [e for e in p.events if e[0] == "call" and e[1] == std_fn]
+            other = [e for e in p.events if e[0] == "call" and e[1] in ("make_ascii_lowercase", "make_ascii_uppercase", "to_ascii_lowercase", "to_ascii_uppercase", wrong, "chars")]
+            ok = not other
+            for e in [x for x in calls(p, "push") if len(x[2]) == 2]:
+                v = e[2][1]
+                some = v[3].get("Some") if v[0] == "enum" else (v[3][0] if v[0] == "variant" and v[2] == "Some" and v[3] else None)
+                if some is None or not (some[0] == "variant" and some[2] == "String"):
+                    continue
+                nconv += 1
+                tup = some[3][0]
+                txt = tup[1][1] if tup[0] == "tuple" and len(tup[1]) == 2 else None
+                ok = ok and txt is not None and any(txt == c_[3] and "core::str" in str(c_[5]) or txt == c_[3] and "str::<impl str>" in str(c_[5]) for c_ in convs)
+            bad.append(f"(and {pc_term(p.pc)} (not {'true' if ok else 'false'}))")
+        c = a.discharge(f"functions/{fname}/unicode-conversion", ex, bad,
+                        f"{fname}, one element ({nconv} converted strings over all paths): the text of the String pushed is std's `str::{std_fn}` of an input "
+                        "(the full Unicode case mapping); no ASCII-only or opposite conversion takes part")
+        if c:
+            c["replay"] = replay_case_converters(a)
+            c["reproduced"] = c["replay"].get("reproduced", False)
+            a.candidates.append(c)
+
+
+def replay_case_converters(a):
+    exe = a.cli()
+    if not exe:
+        return {"reproduced": False, "note": "native build failed"}
+    data = '{"u": "\\u00c9COLE-\\u00c4RGER", "l": "\\u00e9cole-\\u00e4rger", "a": "MiXed", "g": "\\u03a3\\u0391"}\n'
+    prefix = "let lu = to_lower(u)\nlet ul = to_upper(l)\nlet la = to_lower(a)\nlet ua = to_upper(a)\nlet lg = to_lower(g)\n"
+    cases = [("%lu == \"école-ärger\"", "PASS"), ("%ul == \"ÉCOLE-ÄRGER\"", "PASS"), ("%la == \"mixed\"", "PASS"), ("%ua == \"MIXED\"", "PASS"),
+             ("%lu == \"École-Ärger\"", "FAIL"), ("%lg == \"σα\"", "PASS")]
     return a.replay_cases(exe, data, cases, prefix=prefix)
 
 
@@ -2578,6 +2629,6 @@ SITES = {
     "C10": [binary_records],
     "C03": [flip_closure, negated_compare_wrapper, parser_clause_wiring, flip_listin, unary_empty_on_expr, flip_queryin, gac_comparator_pair],
     "C13": [flip_closure, operator_dispatch, binary_operation, match_value, common_operator, contained_in, eq_operation, in_operation, list_map_equality, value_partial_eq, flip_listin, flip_queryin],
-    "C18": [function_dispatch, elementwise, join_sequence, function_args, substring_offsets],
+    "C18": [function_dispatch, elementwise, join_sequence, function_args, substring_offsets, case_converters],
     "C15": [function_args, empty_on_expr_condition],
 }
